@@ -386,6 +386,41 @@ func (dec *Decoder) NextByte() (b byte) {
 	return b
 }
 
+// readCount reads the element count of a list, map, class or byte string. A negative count is
+// an error and is returned as 0, so that it can neither size an allocation nor drive a loop.
+func (dec *Decoder) readCount() int {
+	count := dec.ReadInt()
+	if count < 0 {
+		if dec.Error == nil {
+			dec.Error = DecodeError("hprose/io: negative count")
+		}
+		return 0
+	}
+	return count
+}
+
+// prealloc bounds an allocation that is sized by a count read from the wire: never more than
+// the count, never more than the input that is buffered can justify plus a fixed slack. What
+// really arrives beyond that grows the destination step by step.
+func (dec *Decoder) prealloc(count int) int {
+	if limit := dec.tail - dec.head + 1024; count > limit {
+		return limit
+	}
+	return count
+}
+
+// readReferred reads a reference index and returns the item it refers to.
+func (dec *Decoder) readReferred() (o interface{}, ok bool) {
+	i := dec.ReadInt()
+	if i < 0 || i >= len(dec.refer.ref) {
+		if dec.Error == nil {
+			dec.Error = DecodeError("hprose/io: reference index out of range")
+		}
+		return nil, false
+	}
+	return dec.refer.Read(i), true
+}
+
 // Skip the next byte from the dec.
 func (dec *Decoder) Skip() {
 	if (dec.head == dec.tail) && !dec.loadMore() {
@@ -395,6 +430,12 @@ func (dec *Decoder) Skip() {
 }
 
 func (dec *Decoder) next(n int) (data []byte, safe bool) {
+	if n < 0 {
+		if dec.Error == nil {
+			dec.Error = DecodeError("hprose/io: negative length")
+		}
+		return nil, true
+	}
 	if (dec.head == dec.tail) && !dec.loadMore() {
 		return nil, true
 	}
@@ -405,7 +446,7 @@ func (dec *Decoder) next(n int) (data []byte, safe bool) {
 		return data, false
 	}
 	safe = true
-	data = make([]byte, remain, n)
+	data = make([]byte, remain, remain+dec.prealloc(n-remain)) // grows as the bytes really arrive
 	copy(data, dec.buf[dec.head:dec.tail])
 	n -= remain
 	for {
